@@ -111,16 +111,32 @@ def run_int(case):
     from comb_spec_searcher.rule_db.forest import ForestRuleExtractor, TableMethod
     from comb_spec_searcher.typing import ForestRuleKey, RuleBucket
 
-    m_table.reset()
-    tm = TableMethod()
+    cx = base.ctx()
     rules = case["rules"]
-    for i in case["order"]:
-        p, cs, sh, b = rules[i]
-        tm.add_rule_key(ForestRuleKey(p, tuple(cs), tuple(sh), RuleBucket[b]))
-    ex = ForestRuleExtractor(case["root"], _Stub(tm), None, None)  # postcondition evaluated
-    ex.check()
-    return {"nontrivial": len(ex.needed_rules) >= 3 and len(rules) > len(ex.needed_rules),
-            "fingerprint": fp([case["rules"], case["root"]])}
+    base_order = list(case["order"])
+    # the same multiset in several insertion histories: the random one, its reverse, and
+    # grouped ones in which the reverse-bucket rules arrive before / after everything else
+    # (a class may then pump through a reverse rule long before its reverse-free rule shows up)
+    rank_first = {"VERIFICATION": 0, "REVERSE": 1, "EQUIV": 2, "NORMAL": 3}
+    rank_last = {"VERIFICATION": 0, "EQUIV": 1, "NORMAL": 2, "REVERSE": 3}
+    orders = [base_order, base_order[::-1],
+              sorted(base_order, key=lambda i: rank_first.get(rules[i][3], 2)),
+              sorted(base_order, key=lambda i: rank_last.get(rules[i][3], 2))]
+    seen, nontrivial = set(), False
+    for order in orders:
+        if tuple(order) in seen:
+            continue
+        seen.add(tuple(order))
+        m_table.reset()
+        tm = TableMethod()
+        for i in order:
+            p, cs, sh, b = rules[i]
+            tm.add_rule_key(ForestRuleKey(p, tuple(cs), tuple(sh), RuleBucket[b]))
+        ex = ForestRuleExtractor(case["root"], _Stub(tm), None, None)  # postcondition evaluated
+        ex.check()
+        cx.count("c11.histories_extracted")
+        nontrivial = nontrivial or (len(ex.needed_rules) >= 3 and len(rules) > len(ex.needed_rules))
+    return {"nontrivial": nontrivial, "fingerprint": fp([case["rules"], case["root"]])}
 
 
 def run_table(case):
